@@ -49,6 +49,9 @@ func (g *Gen) siteOrdinal(in ssa.Instruction) (int, bool) {
 					continue
 				}
 				n := g.calleeName(cc.Common())
+				if _, isGo := ins.(*ssa.Go); isGo {
+					n = "go " + n
+				}
 				p := ins.Pos()
 				if p == token.NoPos {
 					p = token.Pos(1 << 40)
